@@ -67,7 +67,7 @@ def gen_header(rng, nitems=None, id_style=None, attrs=True):
         if r < 0.3:
             kw = rng.choice(SCOPE_KW)
             name = rng.choice(NAMES + ["", "", "a", "a"])
-            if attrs and rng.random() < 0.15 and name:
+            if attrs and rng.random() < (0.15 if name else 0.4):
                 pid = rng.randint(1, 3)
                 path = rng.choice([b"/src/top.vhd", b"a.v"])
                 if pid not in path_ids or rng.random() < 0.3:
